@@ -5,6 +5,8 @@
 package sdb
 
 import (
+	"crypto/sha256"
+	"encoding/hex"
 	"fmt"
 	"math/big"
 	"math/rand"
@@ -12,6 +14,8 @@ import (
 	"time"
 
 	sdkmath "cosmossdk.io/math"
+	"cosmossdk.io/store/rootmulti"
+	storetypes "cosmossdk.io/store/types"
 	sdk "github.com/cosmos/cosmos-sdk/types"
 	authtypes "github.com/cosmos/cosmos-sdk/x/auth/types"
 	vestexported "github.com/cosmos/cosmos-sdk/x/auth/vesting/exported"
@@ -162,6 +166,43 @@ func NewEnv(variant int) *Env {
 	return e
 }
 
+// rawDigest hashes every key-value pair of every mounted store as seen from ctx (its cache layers included): the
+// strongest "nothing else changed" oracle - a write that bypasses the StateDB's current context shows up here even
+// when no getter looks at it.
+func (e *Env) rawDigest(ctx sdk.Context) string {
+	rms, ok := e.C.App.CommitMultiStore().(*rootmulti.Store)
+	if !ok {
+		panic("root store is not a rootmulti.Store")
+	}
+	byName := rms.StoreKeysByName()
+	names := make([]string, 0, len(byName))
+	for n := range byName {
+		names = append(names, n)
+	}
+	sort.Strings(names)
+	h := sha256.New()
+	for _, name := range names {
+		var kv storetypes.KVStore
+		func() {
+			defer func() { _ = recover() }()
+			kv = ctx.MultiStore().GetKVStore(byName[name])
+		}()
+		if kv == nil {
+			continue
+		}
+		h.Write([]byte("S:" + name))
+		it := kv.Iterator(nil, nil)
+		for ; it.Valid(); it.Next() {
+			h.Write(it.Key())
+			h.Write([]byte{0})
+			h.Write(it.Value())
+			h.Write([]byte{1})
+		}
+		it.Close()
+	}
+	return hex.EncodeToString(h.Sum(nil))[:20]
+}
+
 // projectWorld reads the committed-world part of ctx for the universe.
 func (e *Env) projectWorld(ctx sdk.Context, now int64) trace.M {
 	c := e.C
@@ -277,6 +318,7 @@ func (e *Env) observe(s evmvm.CStateDB, now int64) trace.M {
 		logs = append(logs, int64(lg.Data[0])<<8|int64(lg.Data[1]))
 	}
 	o["logs"] = logs
+	o["dg"] = e.rawDigest(s.GetCurrentContext())
 	return o
 }
 
@@ -357,7 +399,7 @@ func genOne(out *trace.W, e *Env, r *rand.Rand, tid string, maxOps int, stats ma
 	// up to three consecutive StateDBs over the same parent context (like the transactions of a block)
 	for round := 0; round < 1+r.Intn(3); round++ {
 		w := e.projectWorld(parent, now)
-		out.Emit(trace.M{"ev": "Init", "tid": fmt.Sprintf("%s_%d", tid, round), "now": rel, "w": w})
+		out.Emit(trace.M{"ev": "Init", "tid": fmt.Sprintf("%s_%d", tid, round), "now": rel, "w": w, "pdg": e.rawDigest(parent)})
 		s := evmvm.NewStateDB(parent, common.Address{}, c.App.EvmKeeper, c.App.AccountKeeper, c.App.BankKeeper)
 		pl := []string{"a0", "a1", "c0", "c1", "z0", "y0", "x0", "x1", "v0", "v1", "v3"}
 		x := &runner{e: e, r: r, s: s, now: now, out: out, stats: stats, hot: []string{pick(r, pl...), pick(r, pl...)}}
@@ -368,12 +410,12 @@ func genOne(out *trace.W, e *Env, r *rand.Rand, tid string, maxOps int, stats ma
 		}
 		if dead {
 			// the EVM abandons a StateDB that panicked: nothing of it may reach the parent
-			out.Emit(trace.M{"ev": "Op", "o": trace.M{"op": "Discard"}, "res": "ok", "ret": 0, "pobs": e.projectWorld(parent, now)})
+			out.Emit(trace.M{"ev": "Op", "o": trace.M{"op": "Discard"}, "res": "ok", "ret": 0, "pobs": e.projectWorld(parent, now), "pdg": e.rawDigest(parent)})
 			stats["traces"]++
 			continue
 		}
 		if r.Intn(5) == 0 {
-			out.Emit(trace.M{"ev": "Op", "o": trace.M{"op": "Discard"}, "res": "ok", "ret": 0, "pobs": e.projectWorld(parent, now)})
+			out.Emit(trace.M{"ev": "Op", "o": trace.M{"op": "Discard"}, "res": "ok", "ret": 0, "pobs": e.projectWorld(parent, now), "pdg": e.rawDigest(parent)})
 			stats["discards"]++
 		} else {
 			del := r.Intn(6) != 0
@@ -395,7 +437,7 @@ func genOne(out *trace.W, e *Env, r *rand.Rand, tid string, maxOps int, stats ma
 			if panicked {
 				ev["res"] = "panic"
 				out.Emit(ev)
-				out.Emit(trace.M{"ev": "Op", "o": trace.M{"op": "Discard"}, "res": "ok", "ret": 0, "pobs": e.projectWorld(parent, now)})
+				out.Emit(trace.M{"ev": "Op", "o": trace.M{"op": "Discard"}, "res": "ok", "ret": 0, "pobs": e.projectWorld(parent, now), "pdg": e.rawDigest(parent)})
 				stats["commit-panics"]++
 				// a panicking commit may have written destroyed accounts into inner branches only; the parent is untouched,
 				// but further rounds on it are pointless if the spec disagrees: stop this history
